@@ -356,7 +356,7 @@ def construct (tgt : Cls) (v : V) : R V :=
       match v with
       | .atom c (.str s) =>
           if c == .PosixPath then .ok v
-          else if c == .str then .ok (.atom .PosixPath (.str (pathNorm s))) else tErr
+          else if c == .str || c == .FieldText then .ok (.atom .PosixPath (.str (pathNorm s))) else tErr
       | _ => tErr
   | .fieldLike =>
       match v with
@@ -365,7 +365,7 @@ def construct (tgt : Cls) (v : V) : R V :=
             .ok (.atom tgt (.int (if tgt == .FieldBoolean then (if i == 0 then 0 else 1) else i)))
           else tErr
       | .atom c (.str s) =>
-          if tgt == .FieldText && (c == .str || c == .FieldText) then .ok (.atom tgt (.str s)) else tErr
+          if tgt == .FieldText && (c == .str || c == .FieldText || c == .PosixPath) then .ok (.atom tgt (.str s)) else tErr
       | _ => tErr
   | .noCtor => tErr
 
